@@ -312,13 +312,14 @@ def c16_mark_as_fetched_step(ctx, v):
 def c16_select_orders_unsorted_queue(ctx, v):
     """get_blocks_to_fetch_per_peer on a queue that is NOT in height order (entries pushed by
     different build_peer_block_picture calls: a lower block announced late, a failed fetch
-    re-queued next to a lower announcement). Queue of 2..=3 entries (thorough 4), ids arbitrary and
+    re-queued next to a lower announcement). Queue of 2..=3 entries (both tiers: 4 entries — 24 orders
+    times the statuses — did not finish in 25 minutes), ids arbitrary and
     pairwise distinct in any order, statuses / retry counts / batch size (1..=3) symbolic, and
     `sort_by` executed for real (bubble network calling the code's own comparison closure):
       the returned list is in increasing height order, every returned block was a Queued entry of
       the queue, and afterwards #Fetching <= batch size."""
     body = ctx.body(r"blockchain_sync_state::<impl at [^>]*>::get_blocks_to_fetch_per_peer$")
-    nmax = 3 if ctx.tier == "quick" else 4
+    nmax = 3
     for n in range(2, nmax + 1):
         ex = ctx.executor(loop_bound=n + 2, inline="auto", max_paths=40000)
         ex.sort_real = True
